@@ -13,3 +13,4 @@ for id in "$@"; do
   git -C /verif checkout -- "evidence/$id.json" 2>/dev/null
 done
 git -C /repo worktree remove --force "$wt"
+tools/regen.sh >/dev/null
